@@ -6,7 +6,7 @@ BUILD = ["MIR_NO_INTERP", "MIR_NO_IO", "MIR_NO_SCAN", "H_HTAB_MODEL_CAP=12"]
 CELLS = 22   # (sizeof (struct MIR_insn) + 2 * sizeof (MIR_op_t)) / 8
 
 
-def ob(name, ni, ng, nt, two_cycles, timeout):
+def ob(name, ni, ng, nt, two_cycles, timeout, glob=False):
     w = ni + ng
     loops = {"h_check_restored#0": ni + 1, "h_check_restored#1": CELLS + 1, "h_check_restored#2": 3, "h_check_restored#3": 2 * nt + 1,
              "h_check_copy#0": ni + 1, "h_check_copy#1": 4, "h_check_copy#2": 3,
@@ -20,20 +20,23 @@ def ob(name, ni, ng, nt, two_cycles, timeout):
              "memcmp#0": 5, "strncmp#0": 5, "strcmp#0": 5, "strlen#0": 5,
              "DLIST_MIR_insn_t_el#0": w + 2, "DLIST_MIR_insn_t_el#1": w + 2,
              "memcpy#0": CELLS + 1, "memcpy#1": 2, "memset#0": 2, "memset#1": 2, "bitmap_expand#0": 2}
-    defs = BUILD + ["H_NI=%d" % ni, "H_N_EXACT", "H_NG=%d" % ng, "H_NT=%d" % nt] + ([] if two_cycles else ["H_ONE_CYCLE"])
+    defs = BUILD + ["H_NI=%d" % ni, "H_N_EXACT", "H_NG=%d" % ng, "H_NT=%d" % nt] + ([] if two_cycles else ["H_ONE_CYCLE"]) + (["H_GLOBAL"] if glob else [])
     return Ob(name, "C16/duprest.c", defs=defs, loops=loops, unwind=2, object_bits=12, flags=["--slice-formula"], timeout=timeout,
               sample="function of exactly %d insns, each any of {label, jmp, bt, switch over two labels, laddr, add}, 0..2 lref items on "
                      "arbitrary labels; generator: <= %d operations from {delete, insert label/add before/after, rewrite operand, retarget "
-                     "label} at arbitrary positions and <= %d temporary registers of arbitrary type; %s"
-                     % (ni, ng, nt, "then a second cycle with <= 1 operation and <= 1 temporary" if two_cycles else "one cycle"))
+                     "label} at arbitrary positions and <= %d temporary registers of arbitrary type; %s%s"
+                     % (ni, ng, nt, "then a second cycle with <= 1 operation and <= 1 temporary" if two_cycles else "one cycle",
+                        "; the function also declares one global (hard-register) variable" if glob else ""))
 
 
 def obligations(tier):
     """one obligation per function length (the length is concrete per obligation, the shape of every insn symbolic)"""
     if tier == "quick":
-        return [ob("duprest.n%d.g2.t2.cycle1" % n, n, 2, 2, False, 1800) for n in (1, 2, 3)] + [ob("duprest.n2.g1.t1.cycle2", 2, 1, 1, True, 1800)]
+        return [ob("duprest.n%d.g2.t2.cycle1" % n, n, 2, 2, False, 1800) for n in (1, 2, 3)] + [ob("duprest.n2.g1.t1.cycle2", 2, 1, 1, True, 1800),
+                                                                                                          ob("duprest.global.n1.g1.t2.cycle1", 1, 1, 2, False, 1800, glob=True)]
     return [ob("duprest.n%d.g3.t3.cycle1" % n, n, 3, 3, False, 3600) for n in (1, 2, 3, 4, 5)] \
-        + [ob("duprest.n%d.g2.t2.cycle2" % n, n, 2, 2, True, 3600) for n in (2, 3, 4)]
+        + [ob("duprest.n%d.g2.t2.cycle2" % n, n, 2, 2, True, 3600) for n in (2, 3, 4)] \
+        + [ob("duprest.global.n%d.g2.t2.cycle%d" % (n, c), n, 2, 2, c == 2, 3600, glob=True) for n, c in ((1, 1), (2, 1), (2, 2))]
 
 
 META = {
